@@ -569,7 +569,12 @@ def run_has_storage(tier, log, seed):
         samples.append(f"{fname}: address_has_storage argument is {why} -> {v}")
         log(f"[e3] {samples[-1]}")
         if v == "sat":
-            failures.append(dict(id=f"{fname}-has_storage-arg", description=f"{fname}: the storage flag handed to the collision check is not the database's has_storage answer ({why})"))
+            st, out = native.call("debug", "create_collision", fname, log=log)
+            desc = f"{fname}: the storage flag handed to the collision check is not the database's has_storage answer ({why})"
+            if st == "ok":
+                failures.append(dict(id=f"{fname}-has_storage-arg", reproduced=("MISMATCH" in out), description=desc + f" | native: {out[:400]}"))
+            else:
+                inconcl.append(f"{fname}: native scenario failed: {st} {out[:200]}")
         elif v != "unsat":
             inconcl.append(f"{fname}: {detail}")
     q, tm = duo.queries, duo.time
